@@ -146,8 +146,17 @@ PROPERTIES = {
             "explanation": "bounded stand-in only"},
     "C14": {"rt": ["rt.config:c14_objectives"], "level": "other", "assumptions": S_ALL + ["A-rs2"],
             "explanation": "bounded stand-in only so far: all pairs of feasible points of small configurators"},
-    "C15": {"rt": ["rt.config:c15_bridge"], "level": "other", "assumptions": S_ALL,
-            "explanation": "bounded stand-in only so far: recording and exact solvers"},
+    "C15": {"harness_modules": ["contracts.c15"], "rt": ["rt.config:c15_bridge"], "level": "other", "assumptions": S_ALL +
+            ["to_ge_polyhedron / _vectors_from_prios are replaced on the receiver by stubs returning a prepared polyhedron / objective matrix "
+             "with symbolic entries (their own contracts: C01, C13/C14); optimality of an exact solver's answer over that polyhedron is the "
+             "solver's contract, and satisfaction of safe models is C02"],
+            "explanation": "deductive (symbolic weights, solutions, matrix entries; 1-3 columns incl. compounds with symbolic generated_id "
+                           "flag): AtLeast.solve hands the solver the asserted polyhedron and objective vectors whose entry at each "
+                           "column is the weight of that column's id (0 otherwise), reports {id: value} over the columns with the "
+                           "generated-id filter, None -> {}, pass-through of value/status; ge_polyhedron_config.select likewise and "
+                           "turns a solver exception into InfeasibleError; StingyConfigurator.select forwards and keeps exactly the "
+                           "leaf ids under only_leafs. bounded stand-in: recording and exact solvers on random models/configurators, "
+                           "batched vs single requests."},
     "C16": {"harness_modules": ["contracts.c16"],
             "rt": ["rt.logic:c16_json_roundtrip", "rt.config:c16_configurator_json"], "level": "other",
             "assumptions": S_ALL + ["json.dumps/json.loads is the identity on the emitted records (checked by the stand-in only)"],
